@@ -143,6 +143,13 @@ theorem computed_not_written (cx : RefCtx) (l r : Expr) (name : Str) (args : Lis
   · exact Or.inl h
   · exact Or.inr (Or.inl h)
 
+/-- the side condition `refixed` inside `written` (operands of an intersection, the argument / own cell of ROW and
+    COLUMN): the code rewrites `_R_` / `_C_` textually in the emitted operands, string literals included, so an address
+    on a sheet named `My_R_S` is emitted there as `My_REF_S!…` (a different sheet).  Declared precedents and run-time
+    reads are rewritten alike, so the reads stay covered, but the address is no longer the written one. -/
+example : refixed "My_R_S!A1".toList = false ∧ replaceRC "My_R_S!A1".toList = "My_REF_S!A1".toList ∧
+    refixed "Sheet1!A1:B2".toList = true := by decide
+
 example : pyFuncBase "OFFSET".toList = nmOffset ∧ pyFuncBase "Indirect".toList = nmIndirect := by decide
 
 end Pycel.Needed
